@@ -6,6 +6,7 @@ import (
 	"bufio"
 	"fmt"
 	"os"
+	"runtime/debug"
 	"strings"
 )
 
@@ -19,6 +20,8 @@ var worlds = map[string]func() world{}
 func register(id string, f func() world) { worlds[id] = f }
 
 func main() {
+	// a runaway recursion in the code under test (e.g. on a cyclic structure) should kill the process quickly
+	debug.SetMaxStack(64 << 20)
 	if len(os.Args) < 3 {
 		fmt.Fprintln(os.Stderr, "usage: harness run <Cxx> | harness conc <Cxx> ...")
 		os.Exit(2)
@@ -54,6 +57,7 @@ func runScript(mk func() world) {
 			switch {
 			case line == "reset":
 				w = mk()
+				out.Flush() // everything before a script boundary is on disk if the next script kills the process
 				out.WriteString("reset\n")
 			case strings.HasPrefix(line, "#"):
 				out.WriteString(line + "\n")
